@@ -13,6 +13,8 @@ import (
 	"strings"
 	"sync"
 	"time"
+	"crypto/sha256"
+	"encoding/hex"
 )
 
 // insertFences adds yield points to the scratch copy (DESIGN.md 3.4).  Sites
@@ -354,7 +356,15 @@ func cmdDeterminism(id string, nseeds int, seed int64) int {
 	var wg sync.WaitGroup
 	workers := 8
 	per := (nseeds + workers - 1) / workers
+	// VERIF_DET_PARALLEL=1 runs the 24 processes at once (more processes than cores: time-sliced
+	// preemption inside one controller step then reorders runnable goroutines and shows as
+	// trace differences between otherwise equivalent runs, DESIGN 15.7); by default the three
+	// modes run one after the other, 8 processes at a time
+	parallel := os.Getenv("VERIF_DET_PARALLEL") != ""
 	for mode := 0; mode < 3; mode++ {
+		if !parallel {
+			wg.Wait()
+		}
 		for w := 0; w < workers; w++ {
 			wg.Add(1)
 			go func(mode, w int) {
@@ -515,4 +525,79 @@ func insertHandoverFences(path string) error {
 		return err
 	}
 	return os.WriteFile(path, []byte(sb.String()), 0o644)
+}
+
+// makeOverlay writes patched copies of two files of the Go runtime and returns the path of a
+// -overlay file for the worker build ("" when the toolchain's sources do not have the expected
+// shape: the build then goes ahead without it and the determinism self-test will say so).
+//
+// Why: inside one controller step several goroutines are runnable and the code under test
+// (net/http, the forked http2 server and transport) waits in select statements with several
+// ready cases, ranges over maps and draws jitter from math/rand - all of which take their
+// randomness from per-thread generators of the runtime that are seeded from the kernel at
+// process start.  One seed would then not be one execution.  The patch (worker binary only)
+//   - seeds the runtime's global generator, and with it the hash keys, with a constant;
+//   - inside synctest bubbles takes select tie-breaks (selectgo) and runtime.rand (map seeds,
+//     map iteration offsets, math/rand's auto-seeded generators) from one splitmix64 stream
+//     whose state the harness sets from VERIF_SEED's run seed at every controller step.
+// Outside bubbles (GC, scheduler, the test framework) nothing changes.
+func makeOverlay(goroot string) string {
+	read := func(rel string) string {
+		b, err := os.ReadFile(filepath.Join(goroot, "src", rel))
+		if err != nil {
+			return ""
+		}
+		return string(b)
+	}
+	sel, rnd := read("runtime/select.go"), read("runtime/rand.go")
+	const selOld = "j := cheaprandn(uint32(norder + 1))"
+	const initOld = "\tglobalRand.state.Init(*seed)\n"
+	const randOld = "func rand() uint64 {\n"
+	if strings.Count(sel, selOld) != 1 || strings.Count(rnd, initOld) != 1 || strings.Count(rnd, randOld) != 1 {
+		return ""
+	}
+	sel = strings.Replace(sel, selOld, "j := verifSelectRandn(uint32(norder + 1))", 1)
+	rnd = strings.Replace(rnd, initOld, "\tfor i := range seed {\n\t\tseed[i] = byte(i*37 + 11)\n\t}\n"+initOld, 1)
+	rnd = strings.Replace(rnd, randOld, randOld+"\tif verifDet != 0 {\n\t\tif gp := getg(); gp != nil && gp.bubble != nil {\n\t\t\treturn verifNext()\n\t\t}\n\t}\n", 1)
+	rnd += `
+// verifDet is the state of the deterministic stream used inside synctest bubbles (0 = off).
+// Set by the /verif harness through a linkname.
+//
+//go:linkname verifDet
+var verifDet uint64
+
+//go:nosplit
+func verifNext() uint64 {
+	verifDet += 0x9e3779b97f4a7c15
+	z := verifDet
+	z = (z ^ (z >> 30)) * 0xbf58476d1ce4e5b9
+	z = (z ^ (z >> 27)) * 0x94d049bb133111eb
+	z ^= z >> 31
+	if verifDet == 0 {
+		verifDet = 1
+	}
+	return z
+}
+
+//go:nosplit
+func verifSelectRandn(n uint32) uint32 {
+	if verifDet != 0 {
+		if gp := getg(); gp != nil && gp.bubble != nil {
+			return uint32((uint64(uint32(verifNext()>>32)) * uint64(n)) >> 32)
+		}
+	}
+	return cheaprandn(n)
+}
+`
+	sum := sha256.Sum256([]byte(sel + rnd))
+	dir := filepath.Join(scratchRoot(), "overlay-"+hex.EncodeToString(sum[:6]))
+	os.MkdirAll(dir, 0o755)
+	os.WriteFile(filepath.Join(dir, "select.go"), []byte(sel), 0o644)
+	os.WriteFile(filepath.Join(dir, "rand.go"), []byte(rnd), 0o644)
+	ov := fmt.Sprintf(`{"Replace": {%q: %q, %q: %q}}`,
+		filepath.Join(goroot, "src", "runtime/select.go"), filepath.Join(dir, "select.go"),
+		filepath.Join(goroot, "src", "runtime/rand.go"), filepath.Join(dir, "rand.go"))
+	path := filepath.Join(dir, "overlay.json")
+	os.WriteFile(path, []byte(ov), 0o644)
+	return path
 }
